@@ -30,11 +30,11 @@ LEVEL_TEXT = ("Partial. Unbounded proof: for every byte string (and start positi
               "within (bytes left + 1) passes whatever counts the item announces; the map list of a DEX file as modelled "
               "(MapList.__init__ and MapItem.parse: the count and the items of the map, then per item its section from its own "
               "offset - string, type, proto and field id tables, string data items, code items with their try items and handler "
-              "lists, encoded arrays and annotation items (the value reader of C04, nested to any depth), type lists, annotation set ref lists, annotation set items, annotations directories, in the load order "
+              "lists, encoded arrays and annotation items (the value reader of C04, nested to any depth), class data items (the reader of C05), type lists, annotation set ref lists, annotation set items, annotations directories, in the load order "
               "of C07) ends on EVERY byte string and offset, a map that is read has at most one item per "
               "twelve bytes, and the model is compared with the real MapList on generated and damaged maps. Not proved: "
               "termination of the sections that are not modelled as part of that walk (method ids and class definitions - fixed "
-              "records read with look-ups in the other tables -, and class data, debug info and hidden API data as sections of "
+              "records read with look-ups in the other tables -, and debug info and hidden API data as sections of "
               "the map: their readers have the theorems above) and of the zip layer; they are run on "
               "mutated, truncated and crafted inputs under a time limit that grows with the input size (reference "
               "resolution in resource tables is C29).")
@@ -362,7 +362,7 @@ STREAMS = [
 # method ids are left out: MethodIdItem resolves its prototype while it is read and fails with AttributeError / KeyError on an index
 # the other tables do not cover (no loop is involved; the model has no cross references)
 MAP_KINDS = [0x0001, 0x0002, 0x0003, 0x0004, 0x1001, 0x1002, 0x1003, 0x2006, 0x1000, 0x2001, 0x2001, 0x2002, 0x2002, 0x0007, 0x0008,
-             0x2004, 0x2004, 0x2005, 0x2005]
+             0x2004, 0x2004, 0x2005, 0x2005, 0x2000, 0x2000]
 
 
 def rand_value(rng, depth):
@@ -409,6 +409,19 @@ def gen_map(rng, tier, ctx):
                     count = rng.randint(0, min(6, room // fixed[ty]))
                 elif ty in (0x1000, 7, 8):
                     count = 1
+                elif ty == 0x2000:                      # class data items: four sizes, fields (2 numbers each), methods (3 each)
+                    at, count = off, 0
+                    for _ in range(rng.randint(0, 3)):
+                        ns = [rng.randint(0, 3) for _ in range(4)]
+                        item = b"".join(uleb(n) for n in ns)
+                        for k, n in enumerate(ns):
+                            for _ in range(n):
+                                item += b"".join(uleb(rng.choice((0, 1, 5, 200, 70000))) for _ in range(2 if k < 2 else 3))
+                        if at + len(item) > len(body):
+                            break
+                        body[at:at + len(item)] = item
+                        at += len(item)
+                        count += 1
                 elif ty in (0x2004, 0x2005):            # annotation items, encoded arrays
                     at, count = off, 0
                     for _ in range(rng.randint(0, 3)):
